@@ -226,7 +226,7 @@ func (d *Driver) Run() int {
 		}
 		newViol++
 		seenKey[v.Key]++
-		if seenKey[v.Key] > 2 || printed >= 12 {
+		if seenKey[v.Key] > 2 || printed >= 40 {
 			continue
 		}
 		printed++
